@@ -558,7 +558,7 @@ func ruleCMapDest(c *eng.Ctx) {
 			k, isC := eng.ConstInt(y)
 			return isB && bi.Name() == "len" && isC && ((op == token.LEQ && k <= 4) || (op == token.LSS && k <= 5))
 		}
-		note := func(v ssa.Value, p token.Pos, blk *ssa.BasicBlock) {
+		note := func(host *ssa.Function, v ssa.Value, p token.Pos, blk *ssa.BasicBlock) {
 			for w := range eng.Slice(v, func(*ssa.Call) bool { return false }) {
 				if call, ok := w.(*ssa.Call); ok {
 					switch eng.CalleeName(call) {
@@ -567,31 +567,56 @@ func ruleCMapDest(c *eng.Ctx) {
 					case "font.parseHexToUint32":
 						viaInt = true
 						pos = p
-						if !eng.GuardedBy(fn, blk, singleUnit) {
+						if !eng.GuardedBy(host, blk, singleUnit) {
 							intGuarded = false
 						}
 					}
 				}
 			}
 		}
-		eng.Instrs(fn, false, func(in ssa.Instruction) {
-			switch x := in.(type) {
-			case *ssa.MapUpdate:
-				if fr, ok := eng.LoadOfField(x.Map); ok && fr.Field == "charMappings" {
-					note(x.Value, x.Pos(), x.Block())
-				}
-			case *ssa.Store:
-				if fr, ok := eng.AsField(x.Addr); ok && fr.Field == "StartUnicode" {
-					note(x.Val, x.Pos(), x.Block())
+		// the section reader may hand the work to functions of its own (a parser object chosen once, a helper for
+		// the triplet form): they are read too, except where they are anchors of this rule themselves
+		anchors := map[string]bool{"font.(*CMap).parseBfCharSection": true, "font.(*CMap).parseBfRangeSection": true, "font.(*CMap).parseBfRangeSectionWithArrays": true, "font.(*CMap).parseBfRangeArray": true}
+		hosts := []*ssa.Function{fn}
+		seenHost := map[*ssa.Function]bool{fn: true}
+		for i := 0; i < len(hosts) && i < 12; i++ {
+			for _, ci := range eng.Calls(hosts[i], true, func(string, ssa.CallInstruction) bool { return true }) {
+				for _, g := range c.P.Callees(ci) {
+					if g.Pkg != fn.Pkg || g.Blocks == nil || seenHost[g] || anchors[eng.FuncName(g)] {
+						continue
+					}
+					switch eng.FuncName(g) {
+					case "font.hexToUnicode", "font.parseHexToUint32", "font.(*CMap).addMultiUnitRange":
+						continue
+					}
+					seenHost[g] = true
+					hosts = append(hosts, g)
 				}
 			}
-		})
+		}
+		for _, host := range hosts {
+			host := host
+			eng.Instrs(host, false, func(in ssa.Instruction) {
+				switch x := in.(type) {
+				case *ssa.MapUpdate:
+					if fr, ok := eng.LoadOfField(x.Map); ok && fr.Field == "charMappings" {
+						note(host, x.Value, x.Pos(), x.Block())
+					}
+				case *ssa.Store:
+					if fr, ok := eng.AsField(x.Addr); ok && fr.Field == "StartUnicode" {
+						note(host, x.Val, x.Pos(), x.Block())
+					}
+				}
+			})
+		}
 		// longer destinations must reach the multi-unit decoder (directly or through a helper that does)
 		multi := viaUnicode
-		for _, ci := range eng.Calls(fn, false, func(string, ssa.CallInstruction) bool { return true }) {
-			if cal := eng.StaticCallee(ci); cal != nil && eng.InModule(cal) && cal != fn {
-				if len(eng.CallsNamed(cal, false, "font.hexToUnicode")) > 0 {
-					multi = true
+		for _, host := range hosts {
+			for _, ci := range eng.Calls(host, false, func(string, ssa.CallInstruction) bool { return true }) {
+				if cal := eng.StaticCallee(ci); cal != nil && eng.InModule(cal) && cal != fn {
+					if len(eng.CallsNamed(cal, false, "font.hexToUnicode")) > 0 {
+						multi = true
+					}
 				}
 			}
 		}
